@@ -42,6 +42,7 @@ def _walk(n):
 
 
 _STR_RE = re.compile(r'"((?:[^"\\]|\\.)*)"', re.S)
+_PH_RE = re.compile(r"\{[^{}]*\}")
 
 
 def fn_fingerprint(f):
@@ -54,13 +55,13 @@ def fn_fingerprint(f):
             if k == "bind":
                 binds.append([x.get("id"), x.get("n")])
             elif k == "lit" and x.get("t") == "str" and isinstance(x.get("v"), str):
-                lits.add(x["v"][:80])
+                lits.add(_PH_RE.sub("{}", x["v"])[:80])
             elif k == "macro":
                 for mm in _STR_RE.finditer(x.get("src") or ""):
-                    lits.add(mm.group(1)[:80])
+                    lits.add(_PH_RE.sub("{}", mm.group(1))[:80])
             elif k in ("call", "mcall", "def") and x.get("p"):
                 callees.add(npath(x["p"]))
-    return {"sig": list(f.get("inputs") or []) + [f.get("output") or ""], "binds": binds, "lits": sorted(lits)[:60], "callees": sorted(callees)[:80], "size": size}
+    return {"file": f.get("file"), "sig": list(f.get("inputs") or []) + [f.get("output") or ""], "binds": binds, "lits": sorted(lits)[:60], "callees": sorted(callees)[:80], "size": size}
 
 
 def adt_shape(a):
@@ -287,7 +288,54 @@ def match_fns(base, cur_fns, al):
                 parts.append((0.25, cj))
             s = sum(w * v for w, v in parts) / sum(w for w, _ in parts)
             scores[(o, n)] = s
-    for o, n in _best_unique(scores, 0.62).items():
+    got = _best_unique(scores, 0.62)
+    # second pass: a function that also changed its owner (an associated fn that became a free fn, a nested fn hoisted out of its parent, a move into a
+    # sibling module of the same file's crate directory): same source file or same parent module, stricter threshold, parameter types (self aside) agree
+    left_o = [o for o in van if o not in got]
+    left_n = [n for n in fresh if n not in got.values()]
+    scores2 = {}
+    for o in left_o:
+        bo = base[base_n[o]]
+        for n in left_n:
+            f_n = cur_fns[cur_n[n]]
+            if o.split("::")[0] != n.split("::")[0]:
+                continue
+            same_file = bo.get("file") and bo.get("file") == f_n.get("file")
+            common = 0
+            for a_, b_ in zip(o.split("::"), n.split("::")):
+                if a_ != b_:
+                    break
+                common += 1
+            if not same_file and common < 3:
+                continue
+            if n not in fps:
+                fps[n] = fn_fingerprint(f_n)
+            cn = fps[n]
+            def nonself(sig):
+                return sorted(_mask(t, mask_names) for t in sig[:-1] if "self" not in t.lower() and not re.match(r"^&(mut )?[\w:]+(<.*>)?$", t) or True)
+            so, sn = [_mask(t, mask_names) for t in bo["sig"]], [_mask(t, mask_names) for t in cn["sig"]]
+            if so[-1] != sn[-1]:
+                continue
+            # the parameter type multisets agree up to one receiver
+            ro, rn = list(so[:-1]), list(sn[:-1])
+            for t in list(ro):
+                if t in rn:
+                    ro.remove(t)
+                    rn.remove(t)
+            if len(ro) + len(rn) > 1:
+                continue
+            lj = _jacc(bo["lits"], cn["lits"])
+            cj = _jacc({c for c in bo["callees"] if c.rsplit("::", 1)[-1] not in van_last}, {c for c in cn["callees"] if c.rsplit("::", 1)[-1] not in fresh_last})
+            sz = min(bo["size"], cn["size"]) / float(max(1, max(bo["size"], cn["size"])))
+            parts = [(0.3, 1.0), (0.2, sz)]
+            if lj is not None:
+                parts.append((0.25, lj))
+            if cj is not None:
+                parts.append((0.25, cj))
+            scores2[(o, n)] = sum(w * v for w, v in parts) / sum(w for w, _ in parts)
+    got2 = _best_unique(scores2, 0.72, margin=0.1)
+    got.update(got2)
+    for o, n in got.items():
         al.fn[cur_n[n]] = base_n[o]
         al.log.append("fn %s -> %s" % (cur_n[n], base_n[o]))
 
